@@ -184,6 +184,8 @@ impl Git {
                 .ok_or_else(|| Error::Server("path is not valid UTF-8".into()))?;
             self.cmd(dir, &["add", path_str])?;
         }
+        #[cfg(gothenburgbitfactory_taskchampion_verif)]
+        crate::server::verif::failpoint("git.stage_and_commit.after-add")?;
         self.cmd(dir, &["commit", "-m", message])
     }
     /// Remove untracked TaskChampion files left behind by interrupted writes.
